@@ -4,6 +4,8 @@ from __future__ import annotations
 
 import ast
 
+from sa.astutil import after_block, precedes  # statement order (never line numbers)
+
 from sa.astutil import (
     arg_or_kw,
     call_name,
@@ -171,7 +173,7 @@ def r2_bucket_wiring(ctx):
             for k in keys:
                 skipped = False
                 for n in walk_ordered(lp):
-                    if isinstance(n, ast.Continue) and n.lineno < s.lineno:
+                    if isinstance(n, ast.Continue) and precedes(lp, n, s):
                         ts = enclosing_tests(n, stop=lp)
                         if all(_eval_key_test(t_, var, k) == pol for t_, pol in ts):
                             skipped = True
@@ -387,7 +389,7 @@ def r5_pass_through(ctx):
         if steps and isinstance(s.value, ast.Name):
             late = True
             for st_, val_ in local_defs(f, s.value.id):
-                if val_ is not None and st_.lineno < steps[0].end_lineno and "detector" in norm(val_):
+                if val_ is not None and (contains(steps[0], st_) or precedes(f, st_, steps[0])) and "detector" in norm(val_):
                     late = False
             ctx.check(late, RUN + f"#{key}-fresh", "read from the detector after the last step" if late else f"result node {key!r} is an alias (`{s.value.id}`) taken before / inside the step loop: a container replaced by a model (e.g. load_detector) is missing from the result", where=f, node=s)
         nodes = g.nodes_of(s)
